@@ -93,26 +93,27 @@ Definition should_sample (draws : nat -> Q) (pos : nat) (P : prm) (forced : bool
   else if Qle_bool 1 (p_rate P) then (true, 0%nat)
   else (Qle_bool (draws pos) (p_rate P), 1%nat).
 
-Definition idle_of (s : rst) : rst := mk_rst false false [] (icpt s).     (* _reset_active_recording *)
+Definition idle_of (s : rst) : rst := mk_rst false (enabled s) false [] (icpt s).     (* _reset_active_recording *)
 
 Section History.
   Variable draws : nat -> Q.      (* the stream self._random.random() returns *)
 
-  Definition record_run (enabled : bool) (P : prm) (op : opdef) (save_fails : bool) (s : rst) (w : world)
+  Definition record_run (en : bool) (P : prm) (op : opdef) (save_fails : bool) (s_ : rst) (w : world)
     : obs * world :=
-    if negb enabled || p_skipped P then
+    let s := set_enabled en s_ in        (* the caller switches recording on or off before the run *)
+    if negb (enabled s) || p_skipped P then
       (* :353-360 pass-through; the inner decorators still consult the recorder *)
       let '(o, s1, l) := rec_exec P (op_body op) [] s in
       (mk_obs o (trace_of l) [] [] [] s1, w)
-    else if live s then
+    else if active s then
       (* :67 a recording is already active *)
       (mk_obs (OExn EAssertion) [] [] [] [] s, w)
     else
       let ord := w_next w in
-      let s0 := mk_rst true (force s) (counter s) (icpt s) in
+      let s0 := mk_rst true (enabled s) (force s) (counter s) (icpt s) in
       let '(o, s1, l0) := rec_exec P (op_body op) [] s0 in
       (* _execute_operation_func (:393-411) *)
-      let lop := if live s1 then
+      let lop := if active s1 then
                    match o with
                    | OVal v => [EWrite OPKEY (DOut [v] [])]
                    | OExn (EUser ty) => [EWrite OPKEY (DOpExn ty)]
@@ -121,7 +122,7 @@ Section History.
                  else [] in
       let l := l0 ++ lop in
       let aborts := map (fun _ => CAbort ord) (filter (fun e => match e with EAbort => true | _ => false end) l) in
-      if live s1 then
+      if active s1 then
         (* finally of the recording scope (:80-104) *)
         let '(keep, used) := should_sample draws (w_dpos w) P (force s1) in
         let w1 := mk_world (w_saved w) (S ord) (w_dpos w + used)%nat in
@@ -151,16 +152,18 @@ Section History.
     | (n, st) :: l' => if Nat.eqb n ord then Some st else find_saved ord l'
     end.
 
-  Definition play_run (target : nat) (pf : playfn) (s : rst) (w : world) : obs * world :=
+  Definition play_run (en : bool) (target : nat) (pf : playfn) (s_ : rst) (w : world) : obs * world :=
+    let s := set_enabled en s_ in
     match find_saved target (w_saved w) with
     | None => (mk_obs (OExn ENoSuchRecording) [] [CGet false] [] [] s, w)         (* :888 raises before anything is set *)
     | Some st0 =>
         let R := fst (fetch st0) in
-        let s' := mk_rst (live s) (force s) [] (icpt s) in                         (* :898-904 *)
+        let fin (e : bool) := mk_rst (active s) e (force s) [] (icpt s) in        (* :898-904 *)
         match pf with
-        | PfRaises ty => (mk_obs (OExn (EUser ty)) [] [CGet true] [] [] s', w)
+        | PfRaises ty => (mk_obs (OExn (EUser ty)) [] [CGet true] [] [] (fin (enabled s)), w)
         | PfOp op =>
-            let '(o, _, l) := play_exec R (op_body op) [] (counter s) in
+            let '(o, ps, l) := play_exec R (op_body op) [] (mk_pst (counter s) (enabled s)) in
+            let s' := fin (penabled ps) in
             let pb := pbouts_of l in
             match o with
             | OVal v => (mk_obs (OVal VNone) (trace_of l) [CGet true] (pb ++ [(OPKEY, DOut [v] [])]) (outputs_of R) s', w)
@@ -174,12 +177,12 @@ Section History.
 
   Inductive run :=
   | RRecord (enabled : bool) (P : prm) (op : opdef) (save_fails : bool)
-  | RPlay (target : nat) (pf : playfn).
+  | RPlay (enabled : bool) (target : nat) (pf : playfn).
 
   Definition do_run (r : run) (s : rst) (w : world) : obs * world :=
     match r with
     | RRecord en P op sf => record_run en P op sf s w
-    | RPlay t pf => play_run t pf s w
+    | RPlay en t pf => play_run en t pf s w
     end.
 
   Fixpoint run_history (rs : list run) (s : rst) (w : world) : list obs :=
@@ -189,5 +192,5 @@ Section History.
     end.
 End History.
 
-Definition fresh_rst : rst := mk_rst false false [] false.
+Definition fresh_rst : rst := mk_rst false false false [] false.
 Definition fresh_world : world := mk_world [] 0%nat 0%nat.
